@@ -40,6 +40,8 @@ M("c01-insert-le", "C01", "insert: equal keys go left and the comparison flips t
    "    if (p != NULL) {\n        bp = __cstl_bintree_node(bt, p);\n        bc = (bp->r != NULL) ? &bp->r : &bp;\n    }"))
 M("c01-erase-size", "C01", "erase of a two-child node forgets to decrement size",
   (BT, "    bt->size--;\n\n    return y;", "    if (y == bn) bt->size--;\n\n    return y;"))
+M("c01-find-static-probe", "C01", "find keeps its probe node in a static variable (not re-entrant)",
+  (BT, "    const struct cstl_bintree_node * const bf = __cstl_bintree_node(bt, f);\n    struct cstl_bintree_node * bn = bt->root, *p = NULL;", "    static const struct cstl_bintree_node * bf;\n    struct cstl_bintree_node * bn = bt->root, *p = NULL;\n    bf = __cstl_bintree_node(bt, f);"))
 # ----------------------------------------------------------------- C02
 M("c02-insert-colours", "C02", "insert fix-up: swapped colour assignments before the rotation",
   (RB, "        *BN_COLOR(x->p) = CSTL_RBTREE_COLOR_B;\n        *BN_COLOR(x->p->p) = CSTL_RBTREE_COLOR_R;\n        __cstl_bintree_rotate(t, x->p->p, r, l);",
@@ -79,6 +81,8 @@ M("c12-concat-reinit", "C12", "concat does not re-initialise the source",
 M("c12-find-rev", "C12", "find ignores the direction",
   (DL, "    if (cstl_dlist_foreach((struct cstl_dlist *)l,\n                           cstl_dlist_find_visit, &lfp, dir) > 0) {",
    "    if (cstl_dlist_foreach((struct cstl_dlist *)l,\n                           cstl_dlist_find_visit, &lfp, CSTL_DLIST_FOREACH_DIR_FWD) > 0) {"))
+M("c12-find-static-priv", "C12", "find keeps its private block static (not re-entrant)",
+  (DL, "    struct cstl_dlist_find_priv lfp;\n\n    lfp.cmp = cmp;", "    static struct cstl_dlist_find_priv lfp;\n\n    lfp.cmp = cmp;"))
 M("c12-foreach-next-after", "C12", "foreach reads the successor after the visit",
   (DL, "    for (c = *next(&l->h), n = *next(c);\n         res == 0 && c != &l->h;\n         c = n, n = *next(c)) {\n        res = visit(__cstl_dlist_element(l, c), p);\n    }",
    "    for (c = *next(&l->h);\n         res == 0 && c != &l->h;\n         c = n) {\n        res = visit(__cstl_dlist_element(l, c), p);\n        n = *next(c);\n    }"))
@@ -282,6 +286,8 @@ M("c11-selector-fallback", "C11", "selector fallback missing (out-of-range does 
 M("c11-find-last", "C11", "find keeps scanning and returns the last match",
   (AR, "        if (cmp(ex, __cstl_raw_array_at(arr, size, i), priv) == 0) {\n            return i;\n        }\n    }\n\n    return -1;", "        if (cmp(ex, __cstl_raw_array_at(arr, size, i), priv) == 0) {\n            r = i;\n        }\n    }\n\n    return r;"),
   (AR, "    size_t i;\n\n    for (i = 0; i < count; i++) {\n        if (cmp(ex,", "    size_t i; ssize_t r = -1;\n\n    for (i = 0; i < count; i++) {\n        if (cmp(ex,"))
+M("c11-search-static", "C11", "binary search keeps its bounds in static variables (not re-entrant)",
+  (AR, "    int i, j;\n\n    for (i = 0, j = count - 1; i <= j;) {", "    static int i, j;\n\n    for (i = 0, j = count - 1; i <= j;) {"))
 M("c11-reverse-odd", "C11", "reverse stops one pair early",
   (AR, "    for (i = 0, j = count - 1; i < j; i++, j--) {\n        swap(", "    for (i = 0, j = count - 1; i + 1 < j; i++, j--) {\n        swap("))
 M("c11-swap-8-as-4", "C11", "cstl_swap moves only 4 bytes of 8-byte elements",
